@@ -47,6 +47,7 @@ def cases(seed, tier):
                     T['policies'] = {'retry': {'count': 2, 'delay': 1}}
                 elif prng.random() < 0.2:
                     T['policies'] = {'wait-before': 1}
+        det = gdirect.is_deterministic(P)
         outcomes = gdirect.gen_outcomes(prng, P, p_fail=0.2)
         for T in P['tasks']:
             if (T.get('policies') or {}).get('retry') and prng.random() < .5:
